@@ -118,6 +118,12 @@ def engine_quirk(ex, case, ref=None):
         # SQLite 3.40: a (valid) statement whose subquery holds a FULL OUTER JOIN inside a compound SELECT is rejected
         # by the query flattener (same engine bug family as DESIGN 4.15 h)
         return "sqlite_full_join_in_compound_subquery"
+    if exc_name(ex) == "DataTypeError" and "NullType" in msg and ref is not None and any(
+            t.n == 0 for t in ref.vars.values()) and any(
+            s.get("verb") in ("rematerialize", "collect") for s in case.get("steps", [])):
+        # a frame materialised from an empty result carries Null-typed columns (c); the library then rightly refuses
+        # e.g. a Null-typed filter predicate
+        return "polars_empty_frame_null_dtype"
     if exc_name(ex) == "OperationalError" and "parser stack overflow" in msg:
         return "sqlite_parser_stack"  # expression nesting beyond the SQLite parser's stack (thorough-tier depths)
     if exc_name(ex) == "InvalidOperationError" and "conversion from" in msg and "failed" in msg and (
@@ -244,6 +250,8 @@ def examine_pipeline(case, out: Outcome, *, backends=("polars", "sqlite"), ref_c
                 pl.error[1], case2, run.ref):
             # collect executes the pipeline at the verb call
             out.count("engine_quirk:" + engine_quirk(pl.error[1], case2, run.ref))
+        elif pl.error is not None and engine_quirk(pl.error[1], case2, run.ref) == "polars_empty_frame_null_dtype":
+            out.count("engine_quirk:polars_empty_frame_null_dtype")
         elif pl.error is not None:
             k, ex = pl.error
             out.fail("internal-error", f"polars:{case2['steps'][k]['verb']}:{exc_name(ex)}:{innermost_repo_frame(ex)}",
